@@ -26,6 +26,7 @@ import (
 func init() {
 	register(&Family{Name: "settle", Gen: genSettleHist, Run: runSettleHist})
 	register(&Family{Name: "ledgersettle", Gen: genSettleHist, Run: runSettleHist}) // C05: the same histories, ledger monitors
+	register(&Family{Name: "lifecycle", Gen: genSettleHist, Run: runSettleHist})    // C12: the same histories, life-cycle and vote monitors
 }
 
 func dumpSettle(c *Chain) []string {
